@@ -286,8 +286,8 @@ Proof.
   induction a as [|x a IH]; [reflexivity|]. cbn [list_eqb]. rewrite N.eqb_refl, IH. reflexivity.
 Qed.
 
-(* a raw token of a name with fewer than 126 tokens, the name not containing NUL *)
-Definition raw_ok (t : list N) : Prop := homog t /\ t <> [] /\ nonul t.
+(* a raw token of a name that does not contain NUL *)
+Definition raw_ok (t : list N) : Prop := t <> [] /\ nonul t.
 
 (* decoded token [dt] stands for the raw token [raw] for which the encoder recorded [et] *)
 Definition tok_rel (raw : list N) (et : etoken) (dt : dtoken) : Prop :=
@@ -308,8 +308,8 @@ Lemma classify_step raw c prev : raw_ok raw ->
   exists dt, read_token (rd (classify raw :: c)) prev = Some (rd c, Some dt) /\
              tok_rel raw (classify raw) dt.
 Proof.
-  intros (Hh & Hne & Hnz). unfold classify.
-  assert (Hp : parse_u32 raw = digits_val raw 0) by (apply parse_u32_homog; assumption).
+  intros (Hne & Hnz). unfold classify.
+  assert (Hp : parse_u32 raw = digits_val raw 0) by (apply parse_u32_nonempty; assumption).
   destruct (parse_digits0 raw) as [n|] eqn:E0.
   - unfold parse_digits0 in E0.
     destruct (starts_with_0 raw && (length raw <=? 255)%nat); [|discriminate E0].
@@ -384,8 +384,8 @@ Proof.
   destruct pdt as [|pd pds]; [cbn [toks_rel] in Hrel; contradiction|].
   destruct ptoks as [|pt pts]; [cbn [toks_rel] in Hrel; contradiction|].
   cbn [toks_rel] in Hrel. destruct Hrel as ((Hrender & Hshape) & _). cbn [hd_error].
-  assert (Hok' := Hok). destruct Hok' as (Hh & Hne & Hnz).
-  assert (Hp : parse_u32 raw = digits_val raw 0) by (apply parse_u32_homog; assumption).
+  assert (Hok' := Hok). destruct Hok' as (Hne & Hnz).
+  assert (Hp : parse_u32 raw = digits_val raw 0) by (apply parse_u32_nonempty; assumption).
   destruct (list_eqb raw pr) eqn:Eeq.
   - apply list_eqb_eq in Eeq. rewrite <- Eeq in Hrender. exists pd. split; [apply rt_match|].
     split; [exact Hrender|exact I].
@@ -1086,13 +1086,13 @@ Proof.
   apply Forall_app in H. destruct H as (Ha & Hl). constructor; [exact Ha|apply IH; exact Hl].
 Qed.
 
-Lemma name_ok_of nm : nonul nm -> (length (tokenize nm) < 126)%nat -> name_ok nm.
+Lemma name_ok_of nm : nonul nm -> name_ok nm.
 Proof.
-  intros Hnz Hl. unfold name_ok.
-  pose proof (tokenize_homog nm Hl) as H1. pose proof (tokenize_nonempty nm) as H2.
+  intros Hnz. unfold name_ok.
+  pose proof (tokenize_nonempty nm) as H2.
   assert (H3 : Forall nonul (tokenize nm)) by (apply concat_nonul; rewrite tokenize_concat; exact Hnz).
-  rewrite Forall_forall in H1, H2, H3 |- *. intros t Ht.
-  split; [exact (H1 t Ht)|]. split; [exact (H2 t Ht)|exact (H3 t Ht)].
+  rewrite Forall_forall in H2, H3 |- *. intros t Ht.
+  split; [exact (H2 t Ht)|exact (H3 t Ht)].
 Qed.
 
 Definition nondup (d : ediff) : bool := negb (d_dup d).
@@ -1237,7 +1237,6 @@ Qed.
    entropy-stage theorem covers buffers shorter than 2^28 only. *)
 Definition names_wf (src : list N) : Prop :=
   src <> [] /\ last src 1 = 0 /\ Forall byte src /\ N.of_nat (length src) < 268435456 /\
-  Forall (fun nm => (length (tokenize nm) < 126)%nat) (split_nul (strip_last_nul src)) /\
   4 * N.of_nat (length (split_nul (strip_last_nul src))) < 268435456.
 
 Definition names_roundtrip_full_statement : Prop :=
@@ -1247,13 +1246,12 @@ Definition names_roundtrip_full_statement : Prop :=
 Lemma names_wf_body src : names_wf src ->
   exists body, src = body ++ [0] /\ Forall name_ok (split_nul body).
 Proof.
-  intros (Hne & Hlast & _ & _ & Htok & _).
+  intros (Hne & Hlast & _ & _ & _).
   pose proof (app_removelast_last 1 Hne) as Hsrc. rewrite Hlast in Hsrc.
   exists (removelast src). split; [exact Hsrc|].
-  rewrite Hsrc in Htok. rewrite strip_last_nul_snoc in Htok.
   pose proof (split_nul_nonul (removelast src)) as Hnz.
-  rewrite Forall_forall in Htok, Hnz |- *. intros nm Hin.
-  apply name_ok_of; [apply Hnz|apply Htok]; exact Hin.
+  rewrite Forall_forall in Hnz |- *. intros nm Hin.
+  apply name_ok_of. apply Hnz. exact Hin.
 Qed.
 
 (* what is proved: whenever the encoder answers, the decoder gives the input back, PROVIDED the
